@@ -13,7 +13,7 @@ import (
 func init() {
 	register(&propDef{
 		ID:          "C16",
-		Explanation: "Render equality between watch mode and a fresh build is not decided. Decides writer/reader agreement of the development text-file protocol and the coverage of the recompilation key: R1 every literal the generator can collect is a valid interpreted-string body without a raw newline (GEM, all literal emissions) — needed both for the Go file and for the one-literal-per-line text file; R2 (a) the separator constant the command joins the literals with equals the one both readers split with, (b) the emitted literal index is the 1-based position of the literal in the collected list (counter incremented, literal appended and index emitted in the same step) and the readers index [index-1] after an `index > len` rejection, (c) the literal is emitted between double quotes and the readers unquote \"<line>\", (d) writer and reader compute the text-file name with the same function; R3 the recompilation key (HasChanged) compares every generator option that changes emitted Go, the literal count and the expression list element-wise, and covers the kind of sink an expression is emitted into; R4 within one debounce window of the watch loop the `needs recompilation` and `text updated` flags are accumulated (||) over all events, never overwritten by the last one. R5 each `has this output changed` hash is sha256 of the very value that is written under that name; R6 (= C07.R1) every written Go expression is registered with the source map unconditionally — HasChanged compares the registered expression list, so a skipped registration hides a change that needs recompilation. R7 the shared text-file name function maps a …_templ.go name to the template's name before it resolves the path (Abs / EvalSymlinks), so the generator and the running program resolve the same file. NOT decided: file-system timing of the 100 ms cache, equality of rendered bytes. R8 no error result is dropped in the watcher / modification-check path; R9 closures run later read no per-event loop state; R10 modification times stay time.Time (never truncated or turned into integers); R11 the hash upsert stores the new hash whenever it reports a change. R11 also follows forwarding (see C15.R20). R12 the send of a debounced file event on the watcher's channel is not an arm of a select with a default clause. R13 a file that is renamed onto its target is not created in os.TempDir() (os.CreateTemp(\"\", …)): os.Rename does not cross file systems. R14 a file's modification time is compared with a recorded modification time, never with a value that comes from time.Now() (followed through fields to their stores).",
+		Explanation: "Render equality between watch mode and a fresh build is not decided. Decides writer/reader agreement of the development text-file protocol and the coverage of the recompilation key: R1 every literal the generator can collect is a valid interpreted-string body without a raw newline (GEM, all literal emissions) — needed both for the Go file and for the one-literal-per-line text file; R2 (a) the separator constant the command joins the literals with equals the one both readers split with, (b) the emitted literal index is the 1-based position of the literal in the collected list (counter incremented, literal appended and index emitted in the same step) and the readers index [index-1] after an `index > len` rejection, (c) the literal is emitted between double quotes and the readers unquote \"<line>\", (d) writer and reader compute the text-file name with the same function; R3 the recompilation key (HasChanged) compares every generator option that changes emitted Go, the literal count and the expression list element-wise, and covers the kind of sink an expression is emitted into; R4 within one debounce window of the watch loop the `needs recompilation` and `text updated` flags are accumulated (||) over all events, never overwritten by the last one. R5 each `has this output changed` hash is sha256 of the very value that is written under that name; R6 (= C07.R1) every written Go expression is registered with the source map unconditionally — HasChanged compares the registered expression list, so a skipped registration hides a change that needs recompilation. R7 the shared text-file name function maps a …_templ.go name to the template's name before it resolves the path (Abs / EvalSymlinks), so the generator and the running program resolve the same file. NOT decided: file-system timing of the 100 ms cache, equality of rendered bytes. R8 no error result is dropped in the watcher / modification-check path; R9 closures run later read no per-event loop state; R10 modification times stay time.Time (never truncated or turned into integers); R11 the hash upsert stores the new hash whenever it reports a change. R11 also follows forwarding (see C15.R20). R12 the send of a debounced file event on the watcher's channel is not an arm of a select with a default clause. R13 a file that is renamed onto its target is not created in os.TempDir() (os.CreateTemp(\"\", …)): os.Rename does not cross file systems. R14 a file's modification time is compared with a recorded modification time, never with a value that comes from time.Now() (followed through fields to their stores). R2 also (round 11): the text a reader of the development text file splits into literals is the file's bytes under conversions only (no strings/bytes/regexp call in front of the split).",
 		Assumptions: []string{"strconv.Unquote inverts the generator's escapeQuotes (strconv.Quote without the outer quotes)"},
 		Trusted:     []string{"go/types", "go/parser", "x/tools go/packages", "strconv"},
 		Run:         runC16,
@@ -74,6 +74,7 @@ func runC16(c *Ctx) {
 		fd    *ast.FuncDecl
 		sep   string
 		found bool
+		arg   ast.Expr
 	}
 	var readers []reader
 	for _, rel := range []string{".", "runtime"} {
@@ -81,6 +82,7 @@ func runC16(c *Ctx) {
 		for _, fd := range allFuncDecls(p) {
 			readsFile := false
 			sep, found := "", false
+			var splitArg ast.Expr
 			ast.Inspect(fd.Body, func(n ast.Node) bool {
 				call, ok := n.(*ast.CallExpr)
 				if !ok {
@@ -96,12 +98,13 @@ func runC16(c *Ctx) {
 				case "strings.Split":
 					if s, ok := constString(p.TypesInfo, call.Args[1]); ok {
 						sep, found = s, true
+						splitArg = call.Args[0]
 					}
 				}
 				return true
 			})
 			if readsFile && found {
-				readers = append(readers, reader{rel, fd, sep, true})
+				readers = append(readers, reader{rel, fd, sep, true, splitArg})
 			}
 		}
 	}
@@ -121,6 +124,50 @@ func runC16(c *Ctx) {
 		p := c.pkg(r.rel)
 		c.check(r.sep == joinSep && joinSep == "\n", "C16.R2", funcKey(p, r.fd)+"|separator-agrees", c.pos(r.fd.Pos()), fmt.Sprintf("writer joins with %q, reader splits with %q", joinSep, r.sep),
 			fmt.Sprintf("the text file is written with separator %q (%s) but %s splits it with %q: literal indices no longer line up", joinSep, c.pos(joinPos), r.fd.Name.Name, r.sep))
+	}
+
+	// R2 (round 11): what is split is the file as it was read — conversions only. A text function in front of the split
+	// (TrimSpace, TrimRight, ReplaceAll …) edits the first and the last literal, or every one: white space at the start
+	// of the first and the end of the last literal is part of the document.
+	for _, r := range readers {
+		p := c.pkg(r.rel)
+		info := p.TypesInfo
+		edited := ""
+		var look func(e ast.Expr, depth int)
+		look = func(e ast.Expr, depth int) {
+			ast.Inspect(e, func(n ast.Node) bool {
+				switch x := n.(type) {
+				case *ast.CallExpr:
+					if fn := calleeOf(info, x); fn != nil && fn.Pkg() != nil {
+						switch fn.Pkg().Path() {
+						case "strings", "bytes", "regexp", "unicode", "golang.org/x/text/transform":
+							edited = fullName(fn) + " at " + c.pos(x.Pos())
+						}
+					}
+				case *ast.Ident:
+					if depth < 3 {
+						if ob, ok := info.ObjectOf(x).(*types.Var); ok && ob.Pkg() == p.Types && !ob.IsField() {
+							ast.Inspect(r.fd.Body, func(m ast.Node) bool {
+								if as, ok := m.(*ast.AssignStmt); ok && len(as.Lhs) == len(as.Rhs) {
+									for i, l := range as.Lhs {
+										if lid, ok := l.(*ast.Ident); ok && info.ObjectOf(lid) == types.Object(ob) && as.Rhs[i] != e {
+											look(as.Rhs[i], depth+1)
+										}
+									}
+								}
+								return true
+							})
+						}
+					}
+				}
+				return true
+			})
+		}
+		if r.arg != nil {
+			look(r.arg, 0)
+		}
+		c.check(edited == "", "C16.R2", funcKey(p, r.fd)+"|split-the-file-as-read", c.pos(r.fd.Pos()), "the text that is split into literals is the file's bytes, converted only",
+			fmt.Sprintf("%s passes the text file through %s before splitting it into literals: the generator writes every literal as it is (one per line), so white space at the start of the first literal or at the end of the last one — or whatever else the function edits — is rendered in a normal build and missing in watch mode", r.fd.Name.Name, edited))
 	}
 
 	// R2 (b)(c)(d): readers ---------------------------------------------------------------
